@@ -45,7 +45,7 @@ func init() {
 
 var replicaOpts = []repOpts{
 	{},
-	{MinGasPrices: "20000000000aISLM", Home: "/nonexistent/verif-home-1", InvCheckPeriod: 3, IAVLCacheSize: 7, InterBlockCache: true, Pruning: "everything", MaxTxGasWanted: 500000},
+	{MinGasPrices: "20000000000aISLM", Home: "/nonexistent/verif-home-1", InvCheckPeriod: 3, IAVLCacheSize: 7, InterBlockCache: true, Pruning: "everything", MaxTxGasWanted: 500000, EVMTracer: "access_list"},
 	{MinGasPrices: "1aISLM", Home: "/nonexistent/verif-home-2", InvCheckPeriod: 1, IAVLCacheSize: 100000, Pruning: "nothing", Trace: true, MaxTxGasWanted: 1},
 }
 
@@ -248,8 +248,8 @@ type probeObs struct {
 }
 
 func optsName(o repOpts) string {
-	return fmt.Sprintf("mgp=%q home=%q inv=%d iavl=%d ibc=%v prune=%q maxgw=%d trace=%v", o.MinGasPrices, o.Home, o.InvCheckPeriod, o.IAVLCacheSize,
-		o.InterBlockCache, o.Pruning, o.MaxTxGasWanted, o.Trace)
+	return fmt.Sprintf("mgp=%q home=%q inv=%d iavl=%d ibc=%v prune=%q maxgw=%d trace=%v evmtracer=%q", o.MinGasPrices, o.Home, o.InvCheckPeriod, o.IAVLCacheSize,
+		o.InterBlockCache, o.Pruning, o.MaxTxGasWanted, o.Trace, o.EVMTracer)
 }
 
 // selfTest (harness validation only, `-arg selftest=1`): the second replica gets a genesis that differs in one
